@@ -15,6 +15,12 @@ Notation block := (@block P iset).
         (self.ast_node is None) or _ast_str_literal_value(self.ast_node) is not None      *)
 Definition is_string_piece (p : spiece P) : bool :=
   match fst p with
+  | Some n => match n_tag n with KStrExpr | KBytesExpr => true | _ => false end
+  | None => false
+  end.
+(*  isinstance(_ast_str_literal_value(statement.ast_node), str)  *)
+Definition is_str_piece (p : spiece P) : bool :=
+  match fst p with
   | Some n => match n_tag n with KStrExpr => true | _ => false end
   | None => false
   end.
@@ -25,8 +31,9 @@ Definition is_noncode_piece (p : spiece P) : bool :=
         for idx, statement in enumerate(statements):
             is_prologue = statement.is_comment_or_blank_or_string_literal
             if is_prologue and not statement.is_comment_or_blank:
-                if seen_docstring: is_prologue = False        # only the first string literal is the docstring (F9)
-                seen_docstring = True
+                if seen_docstring or not isinstance(_ast_str_literal_value(statement.ast_node), str):
+                    is_prologue = False        # only the first string literal is the docstring (F9);
+                seen_docstring = True          # a bytes literal never is (226d64c)
             if not is_prologue:  ... break
     index of the first statement that is not prologue; None = the for-else branch.   *)
 Fixpoint first_code_index (seen : bool) (sts : list (spiece P)) : option nat :=
@@ -35,7 +42,7 @@ Fixpoint first_code_index (seen : bool) (sts : list (spiece P)) : option nat :=
   | s :: rest =>
       if is_noncode_piece s then option_map S (first_code_index seen rest)
       else if is_string_piece s then
-        if seen then Some 0
+        if seen || negb (is_str_piece s) then Some 0
         else option_map S (first_code_index true rest)
       else Some 0
   end.
@@ -112,6 +119,7 @@ Definition insert_new_import_block (bs : list block) : option (list block) :=
 End Insert.
 
 Arguments is_string_piece {P}.
+Arguments is_str_piece {P}.
 Arguments is_noncode_piece {P}.
 Arguments first_code_index {P}.
 Arguments other_of {P iset}.
